@@ -111,6 +111,12 @@ def run_group(group, paths, tier):
     env["TRIPPY_VERIF_HARNESS"] = paths["harness_core"]
     env.pop("RUSTUP_TOOLCHAIN", None)
     env.pop("VERIF_THOROUGH", None)
+    if tier == "thorough":
+        # deeper bounds inside the harnesses (buffer sizes, symbolic payload pattern) and more room
+        env["VERIF_THOROUGH"] = "1"
+        group = dict(group)
+        group["timeout_s"] = int(group.get("timeout_s", 300) * 3)
+        group["mem_gb"] = min(40, group.get("mem_gb", 12) * 1.5)
     env.update(group.get("env", {}))
     cmd = kani_cmd(group, paths, tdir, export)
     mem_kb = int(group.get("mem_gb", 12) * 1024 * 1024)
@@ -228,7 +234,10 @@ def playback(group, paths, harness, scratch_tag="pb"):
         cmd += ["-Z", "stubbing"]
     if group.get("cbmc_args"):
         cmd += ["--cbmc-args"] + list(group["cbmc_args"])
-    mem_kb = int(group.get("mem_gb", 12) * 1024 * 1024)
+    # concrete playback makes kani-driver itself parse the whole CBMC trace: give the process tree far
+    # more address space than the verification run (the driver aborts with "memory allocation failed"
+    # under the per-harness cap)
+    mem_kb = int(max(40, group.get("mem_gb", 12) * 2) * 1024 * 1024)
     shell = "ulimit -v %d; exec %s" % (mem_kb, " ".join("'%s'" % c for c in cmd))
     p = subprocess.run(["bash", "-c", shell], cwd=cwd, env=env, capture_output=True, text=True,
                        timeout=max(900, group.get("timeout_s", 300) * 3))
@@ -243,7 +252,9 @@ def playback(group, paths, harness, scratch_tag="pb"):
     src_dir = paths["harness_core"] if group["crate"] == "core" else os.path.join(paths["packet"], "src")
     target_file = None
     for fn in sorted(os.listdir(src_dir)):
-        if fn.endswith(".rs") and re.search(r"fn %s\s*\(" % re.escape(short), open(os.path.join(src_dir, fn)).read()):
+        if fn.endswith(".rs") and fn not in ("common.rs", "sockets.rs") and re.search(
+                r"\b%s\b" % re.escape(short), open(os.path.join(src_dir, fn)).read()):
+            # (harnesses are often generated by a macro: match the bare name, not `fn name(`)
             target_file = os.path.join(src_dir, fn)
             break
     if target_file is None:
@@ -256,6 +267,16 @@ def playback(group, paths, harness, scratch_tag="pb"):
         return {"reproduced": None, "why": "could not locate harness source for " + harness, "test": test_src}
     with open(target_file, "a") as f:
         f.write("\n#[cfg(kani)]\nmod kani_playback_%s {\n    use super::*;\n%s\n}\n" % (tname[-12:], test_src))
+    # the native test build pulls trippy-core's dev-dependencies (tracing-subscriber, ...) which need the
+    # REAL tracing crate: drop the shim patch for the playback build, restore it afterwards
+    cfg_path = os.path.join(paths["repo"], ".cargo", "config.toml")
+    lock_path = os.path.join(paths["repo"], "Cargo.lock")
+    cfg_saved = open(cfg_path).read() if group["crate"] == "core" else None
+    lock_saved = open(lock_path).read() if group["crate"] == "core" else None
+    if cfg_saved is not None:
+        open(cfg_path, "w").write("[net]\noffline = true\n")
+        # the patched build rewrote Cargo.lock (shim instead of the registry tracing): use the repo's own lock
+        shutil.copy(os.path.join(REPO, "Cargo.lock"), lock_path)
     results = {}
     for prof, extra_env in (("dev", {}), ("release", {
             "CARGO_PROFILE_TEST_OPT_LEVEL": "3", "CARGO_PROFILE_TEST_DEBUG_ASSERTIONS": "false",
@@ -276,6 +297,9 @@ def playback(group, paths, harness, scratch_tag="pb"):
                          "failed": bool(ran) and int(ran.group(3)) > 0,
                          "panic": ["%s %s" % (a, b) for a, b in panicked][:3],
                          "tail": o[-800:] if not ran else ""}
+    if cfg_saved is not None:
+        open(cfg_path, "w").write(cfg_saved)
+        open(lock_path, "w").write(lock_saved)
     rep = any(r["failed"] for r in results.values())
     ran_any = any(r["ran"] for r in results.values())
     return {"reproduced": rep if ran_any else None, "profiles": results, "test": test_src, "test_name": tname,
@@ -429,7 +453,7 @@ def main():
     scratch = os.environ.get("TRIPPY_VERIF_SCRATCH", "/var/tmp/trippy-verif.%d" % os.getpid())
     t0 = time.time()
     known = load_known()
-    violations, known_hits, inconclusive = [], [], []
+    violations, known_hits, inconclusive, failures = [], [], [], []
     verdicts = {}
     results = []
     try:
@@ -464,23 +488,34 @@ def main():
                         verdicts[hid] = ("known-finding", k["id"])
                         continue
                     log("  FAILED %s: %s" % (hid, why))
-                    pb = None
-                    try:
-                        pb = playback(g, paths, hid, "pb_" + re.sub(r"\W+", "_", hid)[-40:])
-                    except Exception as e:  # noqa: BLE001
-                        pb = {"reproduced": None, "why": "playback error: %s" % e}
-                    rdir = os.path.join(VERIF, "replays", prop)
-                    os.makedirs(rdir, exist_ok=True)
-                    rpath = os.path.join(rdir, re.sub(r"\W+", "_", hid) + ".json")
-                    json.dump({"property": prop, "group": g["id"], "harness": hid, "failed_checks": h["failed_checks"],
-                               "playback": pb}, open(rpath, "w"), indent=1)
-                    if pb.get("reproduced"):
-                        violations.append({"harness": hid, "why": why, "replay": rpath})
-                        verdicts[hid] = ("violation", why)
-                    else:
-                        inconclusive.append({"harness": hid, "why": "counterexample did not reproduce natively "
-                                             "(encoding suspect): " + str(pb.get("why", "")), "checks": why})
-                        verdicts[hid] = ("inconclusive", "cex not reproduced")
+                    failures.append((h.get("duration_ms") or 0, g, hid, h, why))
+        # replay: cheapest failing harness first; one natively reproduced counterexample makes the
+        # property violated, the remaining failures are listed without spending time replaying them
+        failures.sort(key=lambda f: f[0])
+        for _dur, g, hid, h, why in failures:
+            rdir = os.path.join(VERIF, "replays", prop)
+            os.makedirs(rdir, exist_ok=True)
+            rpath = os.path.join(rdir, re.sub(r"\W+", "_", hid) + ".json")
+            if violations and len(violations) >= 1 and any(v.get("replayed") for v in violations):
+                json.dump({"property": prop, "group": g["id"], "harness": hid, "failed_checks": h["failed_checks"],
+                           "playback": None, "note": "not replayed: another counterexample of this property already "
+                           "reproduced natively in this run"}, open(rpath, "w"), indent=1)
+                violations.append({"harness": hid, "why": why, "replay": rpath, "replayed": False})
+                verdicts[hid] = ("violation", why + " (not replayed)")
+                continue
+            try:
+                pb = playback(g, paths, hid, "pb_" + re.sub(r"\W+", "_", hid)[-40:])
+            except Exception as e:  # noqa: BLE001
+                pb = {"reproduced": None, "why": "playback error: %s" % e}
+            json.dump({"property": prop, "group": g["id"], "harness": hid, "failed_checks": h["failed_checks"],
+                       "playback": pb}, open(rpath, "w"), indent=1)
+            if pb.get("reproduced"):
+                violations.append({"harness": hid, "why": why, "replay": rpath, "replayed": True})
+                verdicts[hid] = ("violation", why)
+            else:
+                inconclusive.append({"harness": hid, "why": "counterexample did not reproduce natively "
+                                     "(encoding suspect): " + str(pb.get("why", "")), "checks": why})
+                verdicts[hid] = ("inconclusive", "cex not reproduced")
     finally:
         if not a.keep:
             shutil.rmtree(scratch, ignore_errors=True)
@@ -496,7 +531,10 @@ def main():
         prop, tier, len(verdicts), npass, len(known_hits), len(violations), len(inconclusive), wall))
     if violations:
         for v in violations:
-            print("VIOLATION property=%s replay=%s" % (prop, v["replay"]))
+            if v.get("replayed", True):
+                print("VIOLATION property=%s replay=%s" % (prop, v["replay"]))
+            else:
+                print("also failing (counterexample not replayed): %s" % v["harness"])
             log("  ", v["harness"], v["why"])
         return 1
     if inconclusive:
